@@ -33,6 +33,8 @@ from .introspect import (
     python_builtin_names,
     getsource_class,
     _ScopedVisitor,
+    _attribute_chain,
+    _referenced_callable,
 )
 from .structures import (
     FunctionArgContext,
@@ -429,21 +431,36 @@ class IntroVisitorIndirect(_ScopedVisitor):
             # Just handling functions, not modules.
             # Handling modules is more complicated (requires tracing the full call) and it can be easily worked around
             # by directly importing the function.
-            if isinstance(obj, (FunctionType,)):
-                # Building a fake AST node to handle functions called without arguments. They may not
-                # _logger.debug(f"visit_name: {node} {pformat(node)} {self._store_names}")
-                # No arg given
-                call_node = ast.Call(
-                    func=node, args=[], keywords=[], starargs=None, kwargs=None
-                )
-                fi_or_p = InspectFunctionIndirect.inspect_call(
-                    call_node,
-                    self._gctx,
-                    self._start_mod,
-                    self._scope_locals,
-                    self._call_stack,
-                )
-                if fi_or_p is not None:
-                    self.results.append(fi_or_p)
+            if isinstance(obj, FunctionType) or inspect.isclass(obj):
+                self._inspect_reference(node)
 
+        self.generic_visit(node)
+
+    def _inspect_reference(self, node: Union[ast.Name, ast.Attribute]) -> None:
+        # A function (or a class) that is referenced, not called: it is analysed as a call without arguments.
+        call_node = ast.Call(func=node, args=[], keywords=[], starargs=None, kwargs=None)
+        fi_or_p = InspectFunctionIndirect.inspect_call(
+            call_node,
+            self._gctx,
+            self._start_mod,
+            self._scope_locals,
+            self._call_stack,
+        )
+        if fi_or_p is not None:
+            self.results.append(fi_or_p)
+
+    def visit_Attribute(self, node: ast.Attribute) -> Any:
+        # A function or a class that is referenced (not called) through a module or a class.
+        parts = _attribute_chain(node)
+        if (
+            parts is not None
+            and isinstance(node.ctx, ast.Load)
+            and parts[0] in self._start_mod.__dict__
+            and parts[0] not in python_builtin_names
+            and LocalVar(parts[0]) not in self._scope_locals
+            and LocalVar("/".join(parts)) not in self._store_names
+            and _referenced_callable(parts, self._start_mod, self._gctx) is not None
+        ):
+            self._store_names.add(LocalVar("/".join(parts)))
+            self._inspect_reference(node)
         self.generic_visit(node)
